@@ -26,6 +26,8 @@ mod ninja;
 mod serde_bool_helpers;
 mod task_runner;
 mod utils;
+#[cfg(kaspar030_laze_verif)]
+mod verif;
 
 use model::{Context, ContextBag, Dependency, Module, Rule, Task, TaskError};
 
@@ -89,6 +91,10 @@ fn ninja_run(
 }
 
 fn main() {
+    #[cfg(kaspar030_laze_verif)]
+    if verif::oracle_main() {
+        return;
+    }
     let result = try_main();
     match result {
         Err(e) => {
